@@ -191,6 +191,7 @@ def jobs(tier, seed):
     if tier == "thorough":
         shapes.update({"3sc": ([F([S(2), S(2), S(1)])], {"out_dom": D, "stop": "sym"}),
                        "rule": ([F([S(1), R([S(1)], bg=1)], bg=1)], {"out_dom": D})})
+    shapes["volume"] = ([F([S(2), S(1)])], {"out_dom": {"*": [0, 1]}, "undef": False, "log_volume": [0, 600, 1000]})
     shapes["nested"] = ([F([S(2), S(1)])], {"out_dom": {"*": [0, 1]}, "nested_steps": ["f0.i0.0", "f0.i1.0"], "undef": False})
     for name, (sh, opts) in shapes.items():
         for clear in ((False,) if tier == "quick" else (False, True)):
